@@ -1,6 +1,6 @@
 (* Extraction of the C06 spec and models.  ExtrOcamlBasic only: nat, N, Z, positive stay Coq datatypes. *)
 Require Extraction.
 Require Import ExtrOcamlBasic.
-From Algo.C06 Require Import Spec Model ModelPat.
+From Algo.C06 Require Import Spec Model ModelPat PatInv.
 Extraction Language OCaml.
-Extraction "model.ml" star s_step b_new b_step b_verify p_new p_step p_verify.
+Extraction "model.ml" star s_step b_new b_step b_verify p_new p_step p_verify p_inv_check.
